@@ -13,3 +13,9 @@ POOL = 8
 
 def generators(tier, seed):
     return [dict(module="MC_C07", workers=2)]
+
+MANIFEST = dict(
+    design_ref="DESIGN.md §5 C07",
+    text="TLC enumerates aggregate lists x column x WHERE filter over world W7 (non-integer means, sizes beyond 32 bits, large values with small spread); each query is run once; Judge_C07 recomputes COUNT/SUM/MIN/MAX exactly and AVG/VAR/STDDEV as exact rationals over BigNat and accepts the printed decimals within 1e-9 / 1e-6 relative.",
+    note="Trusted: TLC, Agg/BigNat (self-tested against native integers), lstat values. Undefined cases (MIN/MAX/AVG of nothing, sample statistics of one value) are unconstrained.",
+    technique="TLC enumeration + replay + TLA+ judge (exact rational aggregates)")
